@@ -132,16 +132,16 @@ theorem tap_dance_tick_total (w : Waiting) (acts : List Action) (t n : Nat)
     ∃ r, tickWt w q aq = .ok r := by
   unfold tickWt
   simp only [hc]
+  unfold tickWtTd tdPick
   generalize handleTapDance _ n acts.length q = res
   obtain ⟨q', ret, nt⟩ := res
   have hidx : min nt acts.length - 1 < acts.length := by
     have : 0 < acts.length := List.length_pos_iff.mpr hne
     omega
-  simp only []
   cases ret with
   | none => exact ⟨_, rfl⟩
   | some a =>
-    simp only [Option.isSome_some, if_true, List.getElem?_eq_getElem hidx]
+    simp only [List.getElem?_eq_getElem hidx]
     exact ⟨_, rfl⟩
 
 /-! ### A crash that is still there (recorded as a known finding) -/
